@@ -534,6 +534,14 @@ std::string check_decode(const std::string &text, size_t extra, size_t prefix, b
   const char *what = from_encoder ? "encoder output" : (valid ? "well-formed text" : "malformed text");
   info.cls(valid ? (from_encoder ? "dec_encoder_output" : "dec_wellformed") : "dec_malformed");
   if (has_high(text)) info.cls("dec_input_has_byte_ge_0x80");
+  // A byte that is neither in the alphabet nor '=' and stands in front of the first '=' makes the text invalid beyond any doubt
+  // (every decoder reads it before it can stop at a pad): the decoders' only failure channel is the return value 0 (or an
+  // exception), so none of them may report decoded bytes for such a text.  (Texts the reference rejects for other reasons -
+  // '=' in the middle, data after a pad - are accepted leniently by the code and are NOT demanded to fail.)
+  bool bad_char = false;
+  if (text.size() % 4 == 0)
+    for (unsigned char c : text) { if (c == '=') break; if (ref::b64_val(c) < 0) { bad_char = true; break; } }
+  if (bad_char) { info.cls("dec_foreign_byte_before_pad"); for (unsigned char c : text) { if (c == '=') break; if (c >= 0x80 && ref::b64_val(c & 0x7f) >= 0) { info.cls("dec_foreign_byte_is_alphabet_char_plus_0x80"); break; } } }
 
   ABlk in(text.data(), text.size(), extra + prefix);
   // --- DecodeLength, three overloads
@@ -572,6 +580,7 @@ std::string check_decode(const std::string &text, size_t extra, size_t prefix, b
       const char *ov = v == 0 ? "Decode(ptr,len,out,cap)" : "Decode(cstr,out,cap)";
       if (threw) { if (valid) return fmt("%s threw on %s", ov, what); continue; }
       if (r > cap) return fmt("%s returned %zu for capacity %zu", ov, r, cap);
+      if (bad_char && r != 0) return fmt("%s returned %zu (decoded bytes %s) for the invalid text %s: a byte outside the alphabet in front of any pad must make it fail", ov, r, hexs(out.u8(), r).c_str(), hexs(text.substr(0, 40)).c_str());
       if (cap < dl && r != 0) return fmt("%s returned %zu although capacity %zu < DecodeLength %zu", ov, r, cap, dl);
       if (valid && cap >= dl) {
         if (r != want.size()) return fmt("%s returned %zu for %s '%s' (capacity %zu), reference decodes %zu bytes", ov, r, what, text.substr(0, 40).c_str(), cap, want.size());
@@ -587,6 +596,7 @@ std::string check_decode(const std::string &text, size_t extra, size_t prefix, b
     if (threw) { if (valid) return fmt("Decode(string,vector) threw on %s", what); }
     else {
       if (out.size() < pre.size() || !std::equal(pre.begin(), pre.end(), out.begin())) return "Decode(string,vector) damaged the bytes already in the vector";
+      if (bad_char && r != 0) return fmt("Decode(string,vector) returned %zu for the invalid text %s: a byte outside the alphabet in front of any pad must make it fail", r, hexs(text.substr(0, 40)).c_str());
       size_t added = out.size() - pre.size();
       if (added > text.size() / 4 * 3) return fmt("Decode(string,vector) appended %zu bytes for a %zu-char text", added, text.size());
       if (valid) {
@@ -654,7 +664,7 @@ SubDef def = [] {
   SubDef d; d.name = "base64";
   d.op_names = {"cfg", "data", "big"};
   d.op_arity = {6, 8, 4};
-  d.nt_rule = "(about 0.2 % of the rapidcheck cases use a 40-200 KiB value, classes large_*) round trip of a value whose encoding is padded (n mod 3 != 0, all capacities incl. exact and one short), or a decoder input that is a really mutated encoding, contains a byte >= 0x80, or is arbitrary text of a length that passes the multiple-of-4 gate";
+  d.nt_rule = "(about 0.2 % of the rapidcheck cases use a 40-200 KiB value, classes large_*) round trip of a value whose encoding is padded (n mod 3 != 0, all capacities incl. exact and one short), or a decoder input that is a really mutated encoding, contains a byte >= 0x80, or is arbitrary text of a length that passes the multiple-of-4 gate; every decoder overload must return 0 (or throw) for a text with a byte outside the alphabet in front of any pad (classes dec_foreign_byte_*)";
   d.run = run;
   d.decode = [](const uint8_t *p, size_t n) { return cfg_data_decode(p, n, 6); };
 #ifndef VERIF_ENGINE_FUZZ
